@@ -65,16 +65,13 @@ def _maxwellian_retention_frac(m, vesc, FeH, vdisp=265., vmax=1000, *,
     if fb >= 1.0:  # TODO breaks on m is array
         return 1.0
 
-    # Integrate over the Maxwellian up to the escape velocity
-    v_space = np.linspace(0, vmax, 1000)
+    # Integrate over the Maxwellian up to the escape velocity, using the
+    # closed-form integral (CDF) of `_maxwellian(x, a)` from 0 to vesc
+    a = vdisp * (1 - fb)
 
-    # TODO might be a quicker way to numerically integrate than a spline
-    retention = interp.UnivariateSpline(
-        x=v_space,
-        y=_maxwellian(v_space, vdisp * (1 - fb)),
-        s=0,
-        k=3,
-    ).integral(0, vesc)
+    retention = (erf(vesc / (np.sqrt(2) * a))
+                 - np.sqrt(2 / np.pi) * (vesc / a)
+                 * np.exp((-1 * (vesc ** 2)) / (2 * (a ** 2))))
 
     return retention
 
